@@ -3,8 +3,11 @@
 package sim
 
 import (
+	"bytes"
 	"fmt"
 	"os"
+	"runtime"
+	"strconv"
 )
 
 // helperMain runs auxiliary roles of the harness binary (controller helpers etc.).
@@ -17,3 +20,15 @@ func helperMain(role string) int {
 }
 
 var helpers = map[string]func() int{}
+
+// goid returns the id of the calling goroutine.
+func goid() int {
+	var buf [64]byte
+	n := runtime.Stack(buf[:], false)
+	f := bytes.Fields(buf[:n])
+	if len(f) < 2 {
+		return 0
+	}
+	id, _ := strconv.Atoi(string(f[1]))
+	return id
+}
